@@ -178,6 +178,53 @@ func runC05(c *fw.Ctx, idx int) fw.Result {
 			}
 		}
 	}
+	// an indel record has one position, P, whatever its length: under --start s / --end e it is
+	// kept iff s <= P <= e, also when s or e falls just behind a long indel
+	if idx%3 == 1 && len(res.Viol) == 0 {
+		var long []model.Mut
+		for _, ms := range muts {
+			for _, m := range ms {
+				if (m.Kind == "ins" || m.Kind == "del") && m.Len >= 2 {
+					long = append(long, m)
+				}
+			}
+		}
+		if len(long) > 0 {
+			m := long[r.Intn(len(long))]
+			bound := m.Pos + 1 + r.Intn(m.Len-1)
+			if bound > L {
+				bound = L
+			}
+			ws, we := bound, -1
+			if r.Chance(0.3) {
+				ws, we = -1, bound
+			}
+			if ws == -1 || ws >= 1 {
+				outW, errW := ac.runVariants(ws, we, false, 0, false, 1)
+				res.Evals++
+				wargv := ac.argv(fmt.Sprintf("--start=%d", ws), fmt.Sprintf("--end=%d", we))
+				if errW != nil {
+					res.Fail(class+":error-on-valid-input", "variants with a window returned an error: "+errW.Error(), files, wargv)
+				} else if _, mW, okW := model.ParseVariantsCSV(outW); okW && len(mW) == len(muts) {
+					res.Count("indel_window_relations_checked", 1)
+					for qi := range muts {
+						var want []string
+						for _, x := range muts[qi] {
+							if (x.Kind == "ins" || x.Kind == "del") && (ws == -1 || x.Pos >= ws) && (we == -1 || x.Pos <= we) {
+								want = append(want, x.Raw)
+							}
+						}
+						gotW := indelStrings(mW[qi])
+						if strings.Join(model.SortedStrings(want), "|") != strings.Join(model.SortedStrings(gotW), "|") {
+							files["observed_window.csv"] = outW
+							res.Fail(class+":indel-window", fmt.Sprintf("query %s with --start %d --end %d: indel records %v, expected those of the full list with the position inside the window: %v", ac.names[qi], ws, we, gotW, want), files, wargv)
+							break
+						}
+					}
+				}
+			}
+		}
+	}
 	// relation: k-query MSA vs 2-row MSA of each query
 	if form == "fasta" && ac.refID != "" {
 		for qi, q := range ac.msa.Rows {
